@@ -14,6 +14,7 @@ package main
 import (
 	"context"
 	"fmt"
+	"math"
 	"sort"
 	"strconv"
 	"strings"
@@ -481,7 +482,11 @@ type isoProgram struct {
 }
 
 func isoCompile(s *JScript) (*isoProgram, error) {
-	p := &isoProgram{src: s.JS()}
+	return isoCompileSource(s.JS())
+}
+
+func isoCompileSource(src string) (*isoProgram, error) {
+	p := &isoProgram{src: src}
 	ctx := context.Background()
 	c, err := sharedInterpreter.Compile(ctx, p.src)
 	if err != nil {
@@ -533,6 +538,34 @@ func (p *isoProgram) exec(route int, bs match.Bindings, props core.StepProps) (r
 		res.Emitted = append(res.Emitted, exe.Events.Emitted...)
 	}
 	return res
+}
+
+var isoUnwritableProg *isoProgram
+
+// isoUnwritableIntact: a script that writes into every part of bindings which cannot go through JSON; the caller's
+// bindings and props must be what they were (the execution itself may fail)
+func isoUnwritableIntact(route int) bool {
+	if isoUnwritableProg == nil {
+		p, err := isoCompileSource(`var b = _.bindings; if (b) { if (b.box) { b.box.k = "hacked"; delete b.box.w; if (b.box.l) { b.box.l[0] = "hacked"; } } b.top = "hacked"; delete b.keep; } if (_.props) { _.props.mid = "hacked"; } return b;`)
+		if err != nil {
+			return true
+		}
+		isoUnwritableProg = p
+	}
+	mk := func() map[string]interface{} {
+		return map[string]interface{}{"keep": 1.0, "top": "t",
+			"box": map[string]interface{}{"k": "x", "v": math.NaN(), "w": []interface{}{1.0, math.Inf(1)}, "l": []interface{}{"y", math.Inf(-1)}}}
+	}
+	bs, props := mk(), map[string]interface{}{"mid": "m1"}
+	isoUnwritableProg.exec(route, match.Bindings(bs), core.StepProps(props))
+	box, _ := bs["box"].(map[string]interface{})
+	if box == nil || box["k"] != "x" || box["w"] == nil || bs["top"] != "t" || bs["keep"] != 1.0 || props["mid"] != "m1" {
+		return false
+	}
+	if l, _ := box["l"].([]interface{}); len(l) != 2 || l[0] != "y" {
+		return false
+	}
+	return true
 }
 
 func isoCopy(m map[string]interface{}) map[string]interface{} {
@@ -667,6 +700,12 @@ func runIsoCase(o *Out, c *isoCase) {
 	alone := probe.observe(c.Route, isoCopy(c.Bs), isoCopy(c.Props))
 	var polObs, probeObs []*isoObs
 	stable := true
+	if !isoUnwritableIntact(c.Route) {
+		// bindings that hold a value JSON cannot write (NaN, Inf): whatever Exec makes of them (it fails), the script
+		// must not have been handed the caller's own objects
+		stable = false
+		o.count("unwritable-bindings-changed")
+	}
 	if !c.Par {
 		bs, props := isoCopy(c.Bs), isoCopy(c.Props) // the caller's objects, shared by the sequence
 		for _, p := range progs {
